@@ -377,7 +377,7 @@ def make_cfg(tier):
     if tier == "quick":
         return X.Cfg(bound=12, maxpoll=1, maxrender=1, finish_results=("full", "none", "err"), wd_advances=(20.0, 3700.0), probe=True), 240
     return X.Cfg(bound=16, maxpoll=1, maxrender=2, finish_results=("full", "nofn", "none", "empty", "err"),
-                 wd_advances=(20.0, 3700.0), probe=True), 3600
+                 wd_advances=(20.0, 3700.0), probe=True), 1800
 
 
 # ------------------------------------------------------------------ filenames
@@ -439,7 +439,7 @@ class C19:
         again = X.Cfg(bound=16 if tier == "quick" else 20, maxpoll=1, maxrender=3, finish_results=("full", "err"), wd_advances=(20.0, 3700.0), probe=False)
         again.events19 = {"render", "pull", "finishr", "killj", "wd"}
         again.writers19 = ("rl",)
-        rc = X.search_phases(self.id, [("wide", cfg, cap), ("kill-and-render-again", again, 120 if tier == "quick" else 1800)], tier, seed, self.families,
+        rc = X.search_phases(self.id, [("wide", cfg, cap), ("kill-and-render-again", again, 120 if tier == "quick" else 600)], tier, seed, self.families,
                       rule=("BFS over histories of one collection's fetch/render jobs on the REAL nserve.Application bound in-process to the "
                             "REAL queue server (controlled gevent hub); events: render(writer) via do_render, pull, setinfo, finish with "
                             "4 result shapes / error, kill, timeout tick, watchdog with clock past error-ttl and ttl, worker EOF; in every "
